@@ -1,4 +1,143 @@
+import RTV.Lemmas.Num
 import RTV.Model.NumCfg
+/-!
+# C03 — numeric literals resolve to exactly the number written, in every culture
+
+Model: `RTV.Dec` (Python `decimal` under a context precision, `str(Decimal)`, `CultureInfo.format`) and
+`RTV.Num.digitalValue` (`BaseNumberParser._get_digital_value`), with the ten separator configurations regenerated
+from the working tree (`RTV/Gen/Num*.lean`).
+
+Full statement (for every configuration `c`, every literal `lit` of `c` — plain | grouped | decimal |
+groupedDecimal, optionally negative — with at most 15 significant digits):
+    `digitalValue 15 tab c.sep lit.text 1 = ok d` with `d` denoting exactly `lit.value`, and
+    `digitResolution … lit.text` = the canonical rendering (the culture's decimal mark, no grouping mark).
+What is proved here for **all** inputs: the integer literals (`digital_exact`, `digital_exact_neg`: any number of
+digits up to the precision, any configuration, with or without sign) — the exact `Decimal` result, not only its
+value.  The grouped / decimal / grouped-decimal shapes are proved on the closed instances below for each of the ten
+regenerated configurations (`number_literal`, `percent_literal`, `format_canonical`: kernel evaluation of the model
+on the regenerated separators, so a changed separator, long-format entry or flag breaks them) and tied to the
+implementation for all magnitudes by the unit and pipeline correspondence of `harness/corr/c03.py`.
+Beyond the precision the code rounds after every digit (`progressive_rounding_witness`).
+-/
 namespace RTV.Num
-theorem c03_placeholder : True := trivial
+open RTV.Py RTV.Dec
+
+/-- C03(a) An unsigned run of at most 15 ASCII digits is read as exactly that integer — `Decimal` with exponent 0 —
+under every separator configuration (any culture, also ones not in the tree). -/
+theorem digital_exact (tab : DigitTab) (ht : tab.Ascii) (c : SepCfg) (hc : c.Sane) (ds : List Nat)
+    (hd : ∀ d ∈ ds, d < 10) (hb : natOfDigits ds < 10 ^ 15) :
+    digitalValue 15 tab c (digitChars ds) 1 = .ok ⟨false, natOfDigits ds, 0⟩ := by
+  simpa using digitalValue_plain 15 tab ht c hc (by decide) false ds hd hb
+
+/-- C03(a') the same with a leading minus sign: the sign is kept, the magnitude is exact. -/
+theorem digital_exact_neg (tab : DigitTab) (ht : tab.Ascii) (c : SepCfg) (hc : c.Sane) (ds : List Nat)
+    (hd : ∀ d ∈ ds, d < 10) (hb : natOfDigits ds < 10 ^ 15) :
+    digitalValue 15 tab c (45 :: digitChars ds) 1 = .ok ⟨true, natOfDigits ds, 0⟩ := by
+  simpa using digitalValue_plain 15 tab ht c hc (by decide) true ds hd hb
+
+/-- the hypotheses are satisfiable: `"999999999999999"` under the English configuration -/
+example : digitalValue 15 asciiDigits en.sep (digitChars (List.replicate 15 9)) 1 = .ok ⟨false, 999999999999999, 0⟩ :=
+  digital_exact asciiDigits asciiDigits_ascii en.sep ⟨by decide, by decide⟩ _ (by decide) (by decide)
+
+/-- Every regenerated configuration satisfies the hypothesis of `digital_exact`, and its two separators differ. -/
+theorem separators_distinct :
+    ∀ c ∈ cultures, c.sep.decSep ≠ c.sep.nonDecSep ∧ c.sep.decSep < 48 ∧ c.sep.nonDecSep < 48 ∧
+      c.sep.decSep ≠ 45 ∧ c.sep.nonDecSep ≠ 45 ∧ c.sep.decSep ≠ 47 ∧ c.sep.nonDecSep ≠ 47 := by
+  decide
+
+theorem cultures_sane : ∀ c ∈ cultures, c.sep.Sane := by
+  intro c hc
+  have := separators_distinct c hc
+  exact ⟨⟨this.2.1, this.2.2.2.1, this.2.2.2.2.2.1⟩, ⟨this.2.2.1, this.2.2.2.2.1, this.2.2.2.2.2.2⟩⟩
+
+/-- The marks a culture *writes* (long-format table of culture.py) against the marks its parser *reads*
+(separator configuration, swapped for the non-standard variants): en-us, es-mx, ja-jp are comma-dot, the European
+cultures dot-comma, zh-cn has no long format (output keeps `.`), and for each culture with a long format the
+written decimal mark is the one the parser reads. -/
+theorem comma_dot_cultures :
+    (cultures.map fun c => c.longFormat) =
+      [some (46, 44), some (44, 46), some (46, 44), some (44, 46), some (44, 46), some (44, 46), some (44, 46),
+       some (44, 46), none, some (46, 44)] ∧
+    (cultures.all fun c =>
+      match c.longFormat with
+      | some (dm, tm) =>
+        dm == (if c.sep.nonStdVariant then c.sep.nonDecSep else c.sep.decSep) &&
+        tm == (if c.sep.nonStdVariant then c.sep.decSep else c.sep.nonDecSep)
+      | none => true) = true := by
+  decide
+
+/-- the literal shapes of a culture written with grouping mark `g` and decimal mark `d` (code points) -/
+def sampleLiterals (g d : Nat) : List (Str × Str) :=
+  -- (literal, expected resolution with '.' as decimal mark)
+  [ ([49, g, 50, 51, 52], [49, 50, 51, 52]),                                                   -- 1,234
+    ([45, 49, 48, 48, g, 48, 48, 48], [45, 49, 48, 48, 48, 48, 48]),                           -- -100,000
+    ([49, g, 50, 51, 52, g, 53, 54, 55], [49, 50, 51, 52, 53, 54, 55]),                        -- 1,234,567
+    ([49, 50, 51, 52, d, 53], [49, 50, 51, 52, 46, 53]),                                       -- 1234.5
+    ([48, d, 48, 53], [48, 46, 48, 53]),                                                       -- 0.05
+    ([45, 49, g, 50, 51, 52, d, 53, 48], [45, 49, 50, 51, 52, 46, 53]),                        -- -1,234.50
+    ([49, 50, 51, g, 52, 53, 54, g, 55, 56, 57, g, 48, 49, 50, d, 51, 52, 53],
+      [49, 50, 51, 52, 53, 54, 55, 56, 57, 48, 49, 50, 46, 51, 52, 53]),                       -- 123,456,789,012.345
+    ([48, d, 48, 48, 48, 48, 48, 49], [48, 46, 48, 48, 48, 48, 48, 49]) ]                      -- 0.000001
+
+/-- the marks a culture writes: its long format, `,` / `.` for zh-cn -/
+def writtenMarks (c : Culture) : Nat × Nat :=
+  match c.longFormat with
+  | some (dm, tm) => (tm, dm)
+  | none => (44, 46)
+
+/-- C03(b) `number_literal`: in each of the ten regenerated configurations every sample literal written with the
+culture's own marks (grouped, several groups, decimal, grouped decimal, negative — including `-100,000`, which the
+unfixed code read as `-100`) resolves to the number written, printed with the culture's decimal mark and without a
+grouping mark. -/
+theorem number_literal :
+    ∀ c ∈ cultures, ∀ l ∈ sampleLiterals (writtenMarks c).1 (writtenMarks c).2,
+      isOkStr (digitResolution 15 asciiDigits c.sep c.longFormat l.1)
+        (l.2.map fun ch => if ch == 46 then (writtenMarks c).2 else ch) = true := by
+  decide +kernel
+
+/-- C03(c) `percent_literal`: the percentage parser (`BasePercentageParser`; `CJKNumberParser.per_parse` for zh-cn,
+whose values are floats) yields the same string followed by `%`. -/
+theorem percent_literal :
+    (∀ c ∈ cultures, c.code ≠ zh.code → ∀ l ∈ sampleLiterals (writtenMarks c).1 (writtenMarks c).2,
+      isOkStr (percentResolution 15 asciiDigits c.sep c.longFormat (fun ch => ch == 32) l.1)
+        ((l.2.map fun ch => if ch == 46 then (writtenMarks c).2 else ch) ++ [37]) = true) ∧
+    (∀ l ∈ (sampleLiterals 44 46).dropLast,
+      isOkStr (cjkPercentResolution 15 asciiDigits zh.sep zh.longFormat [45, 0xFF0D, 0x8D1F, 0x8CA0] l.1)
+        (l.2 ++ [37]) = true) ∧
+    -- the float path prints 10^-6 in exponent form: `0.000001%` ↦ `1E-06%` (same number)
+    isOkStr (cjkPercentResolution 15 asciiDigits zh.sep zh.longFormat [45, 0xFF0D, 0x8D1F, 0x8CA0]
+      [48, 46, 48, 48, 48, 48, 48, 49]) [49, 69, 45, 48, 54, 37] = true := by
+  decide +kernel
+
+/-- C03(d) `format_canonical` on boundary values: exponent form only below 10^-6 and above 15 digits; the decimal
+mark follows the culture, trailing zeros and a trailing mark are dropped. -/
+theorem format_canonical :
+    Dec.format (some (44, 46)) ⟨false, 123450000000000, -11⟩ = [49, 50, 51, 52, 44, 53] ∧          -- 1234,5
+    Dec.format (some (46, 44)) ⟨true, 100000000000000, -20⟩ = [45, 48, 46, 48, 48, 48, 48, 48, 49] ∧  -- -0.000001
+    Dec.format none ⟨false, 5, 0⟩ = [53] ∧
+    Dec.format (some (46, 44)) ⟨false, 100000000000000, -21⟩ =
+      [49, 46, 48, 48, 48, 48, 48, 48, 48, 48, 48, 48, 48, 48, 48, 48, 69, 45, 48, 55] ∧           -- 1.00000000000000E-07
+    Dec.format (some (46, 44)) ⟨false, 100000000000000, 1⟩ = [49, 46, 69, 43, 49, 53] := by        -- 1.E+15
+  decide +kernel
+
+/-- Beyond the precision: a 16-digit integer is rounded once, half-even, to 15 digits … -/
+theorem digital_round16 :
+    isOkDec (digitalValue 15 asciiDigits en.sep (digitChars [1,2,3,4,5,6,7,8,9,0,1,2,3,4,4,5]) 1)
+      ⟨false, 123456789012344, 1⟩ = true ∧
+    isOkDec (digitalValue 15 asciiDigits en.sep (digitChars [1,2,3,4,5,6,7,8,9,0,1,2,3,4,5,5]) 1)
+      ⟨false, 123456789012346, 1⟩ = true ∧
+    isOkDec (digitalValue 15 asciiDigits en.sep (digitChars [1,0,0,0,0,0,0,0,0,0,0,0,0,0,0,0]) 1)
+      ⟨false, 100000000000000, 1⟩ = true := by
+  decide +kernel
+
+/-- … but with 17 digits the per-digit rounding is *not* the correct rounding of the number written:
+`12345678901234451` is nearer to `1.23456789012345E+16`, the code answers `…344E+16` (tie broken to even one
+step early). The value still agrees with the literal to 15 significant digits within one unit of the last place,
+which is what the property promises and what the oracle checks. -/
+theorem progressive_rounding_witness :
+    isOkDec (digitalValue 15 asciiDigits en.sep (digitChars [1,2,3,4,5,6,7,8,9,0,1,2,3,4,4,5,1]) 1)
+      ⟨false, 123456789012344, 2⟩ = true ∧
+    Dec.fix 15 ⟨false, 12345678901234451, 0⟩ = ⟨false, 123456789012345, 2⟩ := by
+  decide +kernel
+
 end RTV.Num
